@@ -353,6 +353,7 @@ inductive ExportMode where
 inductive Op where
   | computeMetric (name : Name) (vals : List Rat) (f : List Rat → Rat) (mode : Mode)
   | addMetric (name : Name) (vals : List Val)
+  | addFromInt (name src : Name)
   | computeTimings
   | pickSubset (conds : List Cond)
   | computeChainMetric (name : Name) (vals : List Rat) (f : List Rat → Rat) (asInt : Bool)
@@ -369,6 +370,14 @@ inductive Out where
 def addMetric (s : State) (name : Name) (v : List Val) : State × Except Err Out :=
   if v.length = s.K then ({ s with metrics := sset s.metrics name v }, .ok .done)
   else (s, .error .value)
+
+/-- `C.add_cycle_metric(name, C.metrics[src], dtype=int)`: a STORED metric handed back as the values of a new
+    integer metric.  `C.metrics[src]` raises KeyError for an unknown name; otherwise the int branch works on a COPY
+    (NaN -> -1, truncation) and stores it under `name` — the metric `src` is left as it was (unless `name = src`). -/
+def addFromInt (s : State) (name src : Name) : State × Except Err Out :=
+  match sget s.metrics src with
+  | none => (s, .error .key)
+  | some v => addMetric s name (toIntVals v)
 
 def computeMetric (s : State) (name : Name) (vals : List Rat) (f : List Rat → Rat) (mode : Mode) :
     State × Except Err Out :=
@@ -465,6 +474,7 @@ def exportTable (F : List Char → Option Rat) (s : State) : ExportMode → Exce
 def step (F : List Char → Option Rat) (s : State) : Op → State × Except Err Out
   | .computeMetric name vals f mode => computeMetric s name vals f mode
   | .addMetric name vals => addMetric s name vals
+  | .addFromInt name src => addFromInt s name src
   | .computeTimings => computeTimings s
   | .pickSubset conds => pickSubset F s conds
   | .computeChainMetric name vals f asInt => computeChainMetric s name vals f asInt
@@ -576,6 +586,14 @@ def readOps : Nat → Nat → List (List Rat) → Option (List Op × FTable)
         let name ← toChars? nm
         let (ops, t) ← readOps fuel nsamp rest'
         some (Op.addMetric name (vals.map some) :: ops, t)
+      | _ => none
+    | [9] =>
+      match rest with
+      | nm :: sr :: rest' => do
+        let name ← toChars? nm
+        let src ← toChars? sr
+        let (ops, t) ← readOps fuel nsamp rest'
+        some (Op.addFromInt name src :: ops, t)
       | _ => none
     | [3] => do
       let (ops, t) ← readOps fuel nsamp rest
